@@ -153,6 +153,10 @@ def cases(tier, cfg, seed):
         add(FixSlice(T, (3, 4, 5), [fs(0, 2), ('all',), fs(1, 5, 2)]))
         add(FixSlice(T, (3, 4, 5), [('int', 1), ('all',), ('all',)]))
         add(FixSlice(T, (2, 3, 2, 4), [('all',), fs(0, 2), ('all',), fs(0, 4, 2)]))
+        # strided views long enough for a full 512-bit gather of 4-byte lanes (16) plus a remainder
+        if T != 'double' or tier != 'quick':
+            add(FixSlice(T, (40,), [fs(0, 40, 2)], expr=True)); add(FixSlice(T, (36,), [fs(1, 35, 2)]))
+            add(FixSlice(T, (2, 54), [('all',), fs(0, 54, 3)], expr=True)); add(FixSlice(T, (60,), [('seq', 2, 59, 3)], expr=True))
     return out
 
 
